@@ -170,7 +170,9 @@ def bndVal : Bnd → Option Val
 
 /-- the boundary hypothesis of `rowset_range_scan_exact` fails in some row-set -/
 def dupAcrossBlocks (lay : List RowSet) (k : Nat) (r : KeyRange) : Bool :=
-  lay.any fun rs => !boundaryOk rs k r
+  -- relative to the KEY column's block index (for k ≠ 0 the mechanism is latent: it shows once
+  -- start_rowid is repaired to read the key column)
+  lay.any fun rs => !boundaryOk { rs with blocks := rs.blocks.set 0 (rs.blocks.getD k []) } k r
 
 /-- Mechanisms of the implementation that can make `exec` differ from `spec` and are present in
 this request (the check maps them to known-finding signatures). -/
@@ -195,6 +197,116 @@ def tagsOf (t : TableMeta) (lay : List RowSet) (bound opt : Plan) : List String 
     | _ => if (keyRangeOfFilter f).isNone then ["range:scan-filter-not-range"] else []
   t1 ++ t2 ++ t4 ++ t3
 
+/-! ### Counterfactual attribution
+
+A mechanism tag is only *attributed* to a disagreement between `exec` and `spec` when repairing
+exactly that mechanism (in the model) makes the disagreement disappear.  `Fixes` switches the
+individual repairs on; `attribute` searches the smallest set of repairs of PRESENT mechanisms
+after which the counterfactual execution equals the specification. -/
+
+structure Fixes where
+  maskKey : Bool := false     -- range:key-not-first-scanned: mask from the key column
+  startKey : Bool := false    -- range:key-not-col0: start row from the key column's block index
+  lenient : Bool := false     -- range:dup-keys-across-blocks: start at the last block whose first key is < begin
+  typed : Bool := false       -- range:key-type-not-i32: bounds cast to the key's type, no start-row skipping for non-INT keys
+  keepFilter : Bool := false  -- range:scan-filter-not-range: a non-range scan filter stays a filter
+  merge : Bool := false       -- order:pk-order-multi-rowset: row-sets merged by the sort key
+  topnCap : Bool := false     -- topn:absent-limit: no eager allocation
+
+def castLike (like v : Val) : Val :=
+  match v.int? with
+  | some i => match like with
+    | .i16 _ => .i16 i
+    | .i32 _ => .i32 i
+    | .i64 _ => .i64 i
+    | _ => v
+  | none => v
+
+def castBnd (like : Val) : Bnd → Bnd
+  | .unb => .unb
+  | .incl v => .incl (castLike like v)
+  | .excl v => .excl (castLike like v)
+
+def swapCols (a b : Nat) (row : Row) : Row :=
+  (row.set a (Row.at row b)).set b (Row.at row a)
+
+def scanRowSetCF (fx : Fixes) (k : Nat) (rs : RowSet) (cols : List Nat) (r : KeyRange) : Out (List Row) :=
+  let like := Row.at (rs.rows.headD []) k
+  let r1 : KeyRange := if fx.typed then ⟨castBnd like r.lo, castBnd like r.hi⟩ else r
+  let rsS : RowSet := if fx.startKey then
+      { rs with rows := rs.rows.map (swapCols 0 k),
+                blocks := (rs.blocks.set 0 (rs.blocks.getD k [])) }
+    else rs
+  let rStart : KeyRange := if fx.lenient then
+      match r1.lo with
+      | .incl (.i32 b) => ⟨.incl (.i32 (b - 1)), r1.hi⟩
+      | _ => r1
+    else r1
+  let kc := if fx.startKey then 0 else 0
+  let nonInt := !(keysI32 rsS kc) || !(bndI32 rStart.lo)
+  let start : Out Nat := if fx.typed && nonInt then .ok 0 else startRowid rsS (some rStart)
+  let fc := if fx.maskKey then k else cols.headD 0
+  start.map fun s =>
+    let tagged := rs.tagged.drop s
+    scanBatches fc (some r1) (splitBatches (cutPoints rs cols) (tagged.length + 1) s tagged)
+
+def collectOut {α} : List (Out α) → Out (List α)
+  | [] => .ok []
+  | x :: xs => x.bind fun a => (collectOut xs).map fun b => a :: b
+
+def execPlanCF (fx : Fixes) (t : TableMeta) (lay : List RowSet) : Plan → Out (List Row)
+  | .scan cols f =>
+    let per : Out (List (List Row)) := match analyzeRange f, keyRangeOfFilter f with
+      | some (k, _), some r => collectOut (lay.map fun rs => scanRowSetCF fx k rs cols r)
+      | _, _ => .ok (lay.map RowSet.visible)
+    let rows : Out (List Row) := per.map fun ls =>
+      if fx.merge && !t.primary.isEmpty then mergeK (keyCmp (ascKeys t.primary)) (totalLen ls) ls else ls.flatten
+    rows.map fun rs =>
+      match f with
+      | .const (.bool true) => rs
+      | _ => if fx.keepFilter && (keyRangeOfFilter f).isNone then rs.filter (keepRow f) else rs
+  | .filter c p => (execPlanCF fx t lay p).map fun rows => rows.filter (keepRow c)
+  | .proj _ p => execPlanCF fx t lay p
+  | .order ks p => (execPlanCF fx t lay p).map fun rows => sortL (keyCmp ks) rows
+  | .limit n m p => (execPlanCF fx t lay p).map fun rows => limitExec n m [rows]
+  | .topn n m ks p => (execPlanCF fx t lay p).bind fun rows =>
+      if fx.topnCap && n.isNone then .ok ((sortL (keyCmp ks) rows).drop m) else topnExec (keyCmp ks) n m rows
+  | .empty _ => .ok []
+
+def fixOf (fx : Fixes) : String → Fixes
+  | "range:key-not-first-scanned" => { fx with maskKey := true }
+  | "range:key-not-col0" => { fx with startKey := true }
+  | "range:dup-keys-across-blocks" => { fx with lenient := true }
+  | "range:key-type-not-i32" => { fx with typed := true }
+  | "range:scan-filter-not-range" => { fx with keepFilter := true }
+  | "order:pk-order-multi-rowset" => { fx with merge := true }
+  | "topn:absent-limit" => { fx with topnCap := true }
+  | _ => fx
+
+def sublistsUpTo {α} : Nat → List α → List (List α)
+  | _, [] => [[]]
+  | n, x :: xs =>
+    let without := sublistsUpTo n xs
+    let withx := (sublistsUpTo n xs).map (x :: ·)
+    without ++ withx.filter (·.length ≤ n)
+
+/-- same result as the specification: same key sequence and same bag of projected rows -/
+def sameResult (ks : List OrdKey) (cols : List Nat) (a b : List Row) : Bool :=
+  let keyOf := fun r => (project (ks.map (·.col)) r).map Val.canon
+  let rowOf := fun r => " ".intercalate ((project cols r).map Val.canon)
+  a.map keyOf == b.map keyOf &&
+    sortBy (fun (x y : String) => compare x y) (a.map rowOf) == sortBy (fun (x y : String) => compare x y) (b.map rowOf)
+
+/-- smallest set of present mechanisms whose repair makes exec = spec (`none`: no such set) -/
+def attributeTags (t : TableMeta) (lay : List RowSet) (ks : List OrdKey) (cols : List Nat) (opt : Plan)
+    (spec : List Row) (tags : List String) : Option (List String) :=
+  let cands := (sublistsUpTo 3 tags).filter (!·.isEmpty)
+  let sorted := sortBy (fun (a b : List String) => compare a.length b.length) cands
+  sorted.find? fun sub =>
+    match execPlanCF (sub.foldl fixOf {}) t lay opt with
+    | .ok rows => sameResult ks cols rows spec
+    | .panic _ => false
+
 def answerQuery (t : TableMeta) (lay : List RowSet) (q : Sexp) : String :=
   match q with
   | .list [.atom "q", b, o] =>
@@ -209,7 +321,10 @@ def answerQuery (t : TableMeta) (lay : List RowSet) (q : Sexp) : String :=
         "(ans ok (keys " ++ toString ks.length ++ ") (limited " ++ toString (hasLimit bp) ++ ") (exec " ++ showOut ks (outCols op) exec ++
           ") (execb " ++ showOut ks (outCols bp) execB ++ ") (spec " ++ showOut ks (outCols bp) (.ok spec) ++
           ") (sorted " ++ toString (hasSort op) ++ ") (pushed " ++ toString (keyRangeOfFilter (scanOf op).2).isSome ++
-          ") (tags " ++ " ".intercalate (tagsOf t lay bp op) ++ "))"
+          ") (tags " ++ " ".intercalate (tagsOf t lay bp op) ++
+          ") (attr " ++ (match attributeTags t lay ks (outCols op) op spec (tagsOf t lay bp op) with
+            | some sub => " ".intercalate sub
+            | none => "none") ++ "))"
     | _, _ => "(ans unsupported)"
   | _ => "(ans bad-request)"
 
@@ -256,8 +371,18 @@ def answerScan (t : TableMeta) (lay : List RowSet) (s : Sexp) : String :=
           (if dupAcrossBlocks lay k rg then ["range:dup-keys-across-blocks"] else [])
         | some _, none => ["range:no-sort-key"]
         | none, _ => []
+      let attr : Option (List String) := match r, t.primary.head? with
+        | some rg, some k =>
+          let cands := sortBy (fun (a b : List String) => compare a.length b.length) ((sublistsUpTo 3 tags).filter (!·.isEmpty))
+          cands.find? fun sub =>
+            match collectOut (lay.map fun rs => scanRowSetCF (sub.foldl fixOf {}) k rs cols rg) with
+            | .ok ls => sameResult [] cols ls.flatten spec
+            | .panic _ => false
+        | _, _ => none
       "(sc (exec " ++ showOut (ascKeys t.primary) cols exec ++ ") (spec " ++ showOut (ascKeys t.primary) cols (.ok spec) ++
-        ") (tags " ++ " ".intercalate tags ++ "))"
+        ") (tags " ++ " ".intercalate tags ++ ") (attr " ++ (match attr with
+            | some sub => " ".intercalate sub
+            | none => "none") ++ "))"
   | _ => "(sc bad-request)"
 
 def attachBlocks (blocks : List Sexp) (rs : RowSet) : RowSet :=
